@@ -86,6 +86,13 @@ fn exhaustive_trees<E: Est>(out: &mut Out, alphabet: &[f64], max_n: usize, max_k
 
 const ALPHABET: &[f64] = &[1.0, 2.5, -3.0, 1e9 + 1.0, 1e9 + 3.0, 0.0, 7.0e-3, 1.0];
 
+fn random_tree_from(chunks: &[Vec<f64>]) -> Tree {
+    let mut it = chunks.iter();
+    let mut t = Tree::Leaf(it.next().unwrap().clone());
+    for c in it { t = Tree::Node(Box::new(t), Box::new(Tree::Leaf(c.clone()))); }
+    t
+}
+
 fn sampled_trees<E: Est>(out: &mut Out, tier: &str, rng: &mut Rng, allow: &dyn Fn(&str) -> bool, min_mag: f64, max_mag: f64) {
     let plan: Vec<(usize, usize)> = if tier == "thorough" { vec![(10, 60), (100, 60), (1000, 30), (10_000, 8)] } else { vec![(10, 12), (100, 12), (1000, 6), (10_000, 1)] };
     for (n, count) in plan {
@@ -114,6 +121,20 @@ pub fn c02(out: &mut Out, tier: &str, rng: &mut Rng) {
         merged::<average::Kurtosis>(out, &t, Trace::None, rng, &allow_all);
         merged::<average::Moments4>(out, &t, Trace::None, rng, &allow_all);
         merged::<M6>(out, &t, Trace::None, rng, &allow_all);
+    }
+    // large chunks (counts beyond 2^16 on both sides of a merge), different chunk means
+    {
+        let n = if tier == "thorough" { 600_000 } else { 150_000 };
+        let mut d = shape(rng, "exp_pos", n);
+        for (i, x) in d.iter_mut().enumerate() { if i >= n / 2 { *x += 3.0; } }
+        let cuts_list: Vec<Vec<usize>> = vec![vec![n / 2], vec![n / 3, 2 * n / 3]];
+        for cuts in cuts_list {
+            let chunks = chunks_of(&d, &cuts);
+            let t = random_tree_from(&chunks);
+            merged::<average::Kurtosis>(out, &t, Trace::None, rng, &allow_all);
+            merged::<average::Moments4>(out, &t, Trace::None, rng, &allow_all);
+            merged::<average::Variance>(out, &t, Trace::None, rng, &allow_all);
+        }
     }
     sampled_trees::<average::Mean>(out, tier, rng, &allow_all, -25.0, 25.0);
     sampled_trees::<average::Variance>(out, tier, rng, &allow_all, -25.0, 25.0);
@@ -172,6 +193,17 @@ fn c04_for<E: Est>(out: &mut Out, tier: &str, rng: &mut Rng) {
             let max_mag = ((300.0 - (n as f64).log10() - 20.0) / order - 2.0).floor().min(25.0);
             let (d, _) = dataset_in(rng, n, 3e11, (-240.0 / order).max(-25.0), max_mag, FAMILIES);
             single_pass::<E>(out, &d, Trace::All, rng, &allow_all);
+        }
+    }
+    // the edge of the property's domain: n * max|x|^N just below 1e300 (no offset, so |x - mean| <~ max|x|)
+    for &n in &[3usize, 40, 400, 3000] {
+        for fam in ["uniform", "normal", "two_point", "exp_pos"] {
+            let base = shape(rng, fam, n);
+            let m = base.iter().map(|x| x.abs()).fold(0.0, f64::max);
+            if m == 0.0 { continue; }
+            let target = 10f64.powf((297.0 - (n as f64).log10()) / order).min(1e30);
+            let d: Vec<f64> = base.iter().map(|x| x / m * target).collect();
+            single_pass::<E>(out, &d, Trace::None, rng, &allow_all);
         }
     }
     for (n, count) in big {
